@@ -402,6 +402,7 @@ func run(seed uint64, tier, outDir string) error {
 		"BU_:\nCM_ \"g\";CM_ BU_ n \"x\";CM_ BO_ 1 \"y\";CM_ SG_ 1 s \"multi\nline\";CM_ EV_ e \"z\";\nINT HEX SG_ FLOAT\n",
 		"VERSION \"a\" NS_ : CM_ FILTER 5 \"x\" ; BS_: BU_: a\x00 trailing garbage",
 	}
+	st.outsideStream()
 	for _, h := range hand {
 		seeds = append(seeds, []byte(h))
 		st.checkText("hand", []byte(h), false, true)
